@@ -1,0 +1,22 @@
+//go:build verif
+
+// Package r17 re-exports the receive queue of internal/server so that the
+// verification harness (a different module) can drive it. Add-only; compiled
+// only with -tags verif.
+package r17
+
+import (
+	"github.com/lni/dragonboat/v4/internal/server"
+	pb "github.com/lni/dragonboat/v4/raftpb"
+)
+
+// Queue is server.MessageQueue.
+type Queue = server.MessageQueue
+
+// New is server.NewMessageQueue with the rate limiter off.
+func New(size uint64, lazyFreeCycle uint64) *Queue {
+	return server.NewMessageQueue(size, false, lazyFreeCycle, 0)
+}
+
+// CanDrop is pb.Message.CanDrop.
+func CanDrop(m pb.Message) bool { return m.CanDrop() }
